@@ -1,4 +1,4 @@
-import ZChain.Proofs.StorageC13
+import ZChain.Props.C13
 /-!
 # C14 — Closing an allocation refunds the rest exactly once
 
@@ -23,33 +23,6 @@ is checked on the real code by the harness oracle (`C14:blobbers-overpaid`), not
 namespace ZChain.Storage
 
 attribute [local irreducible] offer
-
-theorem closeBlobbers_frame14 : ∀ {l : List BA} {per : List (Nat × Nat)} {s s' : State},
-    closeBlobbers s l per = some s' →
-    s'.wallet = s.wallet ∧ s'.clients = s.clients ∧ s'.now = s.now ∧ s'.allocs = s.allocs ∧ s'.cps = s.cps ∧
-    s'.vsps = s.vsps ∧ s'.rps = s.rps := by
-  intro l
-  induction l with
-  | nil =>
-    intro per s s' h
-    cases per with
-    | nil => simp only [closeBlobbers] at h; cases h; exact ⟨rfl, rfl, rfl, rfl, rfl, rfl, rfl⟩
-    | cons p ps => simp [closeBlobbers] at h
-  | cons d ds ih =>
-    intro per s s' h
-    cases per with
-    | nil => simp [closeBlobbers] at h
-    | cons p ps =>
-      obtain ⟨dp, cr⟩ := p
-      simp only [closeBlobbers] at h
-      split at h
-      · split at h
-        · cases h
-        · split at h
-          · cases h
-          · obtain ⟨a1, a2, a3, a4, a5, a6, a7⟩ := ih h
-            exact ⟨a1, a2, a3, a4, a5, a6, a7⟩
-      · cases h
 
 /-- what a successful close consists of -/
 theorem close_inversion {s s' : State} {fin : Bool} {k : Nat} {c : Caller} {X : Nat} {per : List (Nat × Nat)}
@@ -292,14 +265,14 @@ theorem updExtend_keeps {s s' : State} {k size : Nat} {ds : List Int} (h : updEx
 theorem step_keeps {s s' : State} {op : Op} (h : stepRel s op s') : KeepsNone s s' := by
   unfold stepRel at h
   cases op with
-  | addBlobber i c p => exact keepsNone_frame (addBlobber_frame h) (by unfold step addBlobber at h; ok_branches h; rfl)
-  | addValidator i => exact keepsNone_frame (addValidator_frame h) (by unfold step addValidator at h; ok_branches h; rfl)
+  | addBlobber i c p => exact keepsNone_frame (addBlobber_frame h) (by simp only [step] at h; unfold addBlobber at h; ok_branches h; rfl)
+  | addValidator i => exact keepsNone_frame (addValidator_frame h) (by simp only [step] at h; unfold addValidator at h; ok_branches h; rfl)
   | stake v i j amt => exact keepsNone_frame (stake_frame h) (stake_frame13 h).2.1
   | unstake v i j amt rew => exact keepsNone_frame (unstake_frame h) (unstake_frame13 h).2.1
   | collect v i j rew => exact keepsNone_frame (collect_frame h) (collect_frame13 h).2.1
   | updBlobber i c p => exact keepsNone_frame (updBlobber_frame h) (updBlobber_frame13 h).2.1
-  | killBlobber i n d => exact keepsNone_frame (killBlobber_frame h) (by unfold step killBlobber at h; ok_branches h <;> rfl)
-  | shutBlobber i n d => exact keepsNone_frame (shutBlobber_frame h) (by unfold step shutBlobber at h; ok_branches h <;> rfl)
+  | killBlobber i n d => exact keepsNone_frame (killBlobber_frame h) (by simp only [step] at h; unfold killBlobber at h; ok_branches h <;> rfl)
+  | shutBlobber i n d => exact keepsNone_frame (shutBlobber_frame h) (by simp only [step] at h; unfold shutBlobber at h; ok_branches h <;> rfl)
   | killValidator i n d => exact keepsNone_frame (killValidator_frame h) (killValidator_frame13 h).2.1
   | newAlloc j data size value chosen =>
     simp only [step] at h
